@@ -62,6 +62,12 @@ CLAIMED = {
             "succeeds exactly when they find something, and the one-shot split flag behaves as specified (set exactly when no delimiter "
             "is left, then SplitExhausted, preserved by every other operation). Protocols to exhaustion are bounded cross-checks "
             "(quick: strings <=3 bytes, delimiter \",\"); the free functions themselves are tied to std by C04/C05.", "DESIGN.md#c14"),
+    "C15": (BMC + "a drop ledger (every element carries an id; handed_out + dropped == 1 at the end of every completed path), generated destructure! pattern family",
+            "ArrayConsumer / ArrayBuilder under symbolic operation sequences (N in 0,1,3,4), clone of both, by-value array::map_!, and 40 "
+            "generated destructure! pattern shapes (braced/tuple structs in path and type form, tuples up to 16, arrays with rest / `..` / "
+            "`_`, packed structs, nested patterns, ZST fields): every element is handed out or dropped exactly once, `_`/`..` elements are "
+            "dropped at the macro, ids and payloads arrive in order and bit-for-bit. Generated programs are first compiled with rustc; "
+            "panics unwind nothing under Kani, so leak-on-panic is outside the claim.", "DESIGN.md#c15"),
     "C16": (BMC + "std == / Ord::cmp on symbolic pairs (lexicographic reference for slices), should_panic twins for assertc_eq!/assertc_ne!",
             "Scalars, NonZero*, Ordering, ranges and Option of them are compared with std over their whole domains (exhaustive per pair); "
             "strings, slices of every primitive, slices of strings/byte slices over all contents up to the stated lengths (all length "
